@@ -44,6 +44,8 @@ type World struct {
 	rtErr     types.Type
 	rtErrOnce sync.Once
 
+	ifShapes map[*ssa.BasicBlock]*ifShape
+
 	pureMu    sync.Mutex
 	pureCache map[*ssa.Function]bool
 }
